@@ -24,6 +24,7 @@ type SpecScope struct {
 	inOld    bool
 	post     bool
 	boundSet map[string]bool // names that are quantifier-bound (for trigger inference)
+	loopPre  *State          // state on entry of the enclosing loop (before(e))
 }
 
 func (fv *FuncVC) specScope(st *State, old *State, post bool) *SpecScope {
@@ -639,6 +640,13 @@ func (fv *FuncVC) specCall(x *SCall, sc *SpecScope) Val {
 			}
 			fv.heapDecl("G$lasterr", arraySort(SRef, SRef))
 			return Val{sx("select", sc.heap("G$lasterr"), kr), SRef, nil}
+		case "before":
+			if sc.loopPre == nil {
+				specFail("before() is only available in loop invariants")
+			}
+			c := sc.child()
+			c.st = sc.loopPre
+			return fv.specEval(x.Args[0], c)
 		case "atlock":
 			// value of an expression right after the (last) Lock() of this function
 			if fv.lockSnap == nil {
